@@ -11,7 +11,7 @@
    exercised by the fuzzing stream only. *)
 From Verif Require Import Base.Str Base.Outcome Model.Ast Model.Token Model.Lexer Model.Parser Model.Listener
   Model.Printer Model.Transform Model.ModFile Model.WGraph Model.WWeights Spec.Sem
-  Proofs.TotalityProofs Proofs.WGraphProofs Proofs.WeightsProofs Proofs.ModFileProofs.
+  Model.Merge Spec.MergeSpec Proofs.TotalityProofs Proofs.WGraphProofs Proofs.WeightsProofs Proofs.ModFileProofs Proofs.MergeIff.
 
 (* the DSL printer, on any protobuf shape *)
 Theorem C08_printer_total : forall src m, is_panic (fst (print_model src m)) = false.
@@ -43,3 +43,8 @@ Proof. exact build_weighted_no_panic. Qed.
 (* fga.mod on any node shapes *)
 Theorem C08_modfile_total : forall schema contents, is_panic (transform_mod schema contents) = false.
 Proof. exact transform_mod_total. Qed.
+
+(* the module merge, on every list of files as the parser delivers them (distinct file names, no nil metadata —
+   the decidable [wf_modulesb], evaluated on every generated set): no nil dereference in either phase *)
+Theorem C08_merge_total : forall fs v, wf_modules fs -> is_panic (merge fs v) = false.
+Proof. intros fs v H. apply merge_total; [intros f _; apply dsl_to_model_no_panic|exact H]. Qed.
